@@ -51,6 +51,8 @@ impl WakerQueue {
             .push_back(interest);
 
         #[cfg(actix_net_verif)]
+        crate::verif::queue_pushed(self);
+        #[cfg(actix_net_verif)]
         crate::verif::point(crate::verif::Point::AfterPush);
 
         waker
